@@ -53,7 +53,7 @@ def one(prog, rep, tier, fn, Z):
     nl_args = []
 
     def ch(E_, frame, bb, t, sts, c):
-        if frame.depth == 0 and (c.get('rname') or c.get('name') or '').endswith('cpr::nl'):
+        if (c.get('rname') or c.get('name') or '').endswith('cpr::nl'):        # at any depth (the call may sit in a helper)
             for st in sts:
                 a = E_.scalar(st, E_.operand(st, frame, t['args'][0]))
                 nl_args.append(a[4] if a[0] == 'F' else None)
